@@ -536,17 +536,38 @@ WIDE_SHAPES = [
 
 # "history" shape: the run the user asked for comes SECOND in its folder; an earlier run with one defining
 # leaf changed has left its generator folder and outputs behind (wholerun.prev_variant / run_after)
-HISTORY_KINDS = ["period-start", "duration", "rates", "repair-delay", "n-sims", "site-count", "pre-sim",
-                 "period-end", "coverage", "mdl"]
+HISTORY_KINDS = ["period-start", "shrink-grow", "duration", "chain", "rates", "repair-delay", "n-sims", "shrink-grow",
+                 "site-count", "chain", "pre-sim", "period-end", "coverage", "mdl"]
+
+
+def _prev_of_kind(W, cfg, what, base):
+    import random as _r
+
+    prev, kind = None, None
+    for t in range(400):
+        prev, kind = W.prev_variant(cfg, _r.Random(base + t))
+        if what is None or kind == what:
+            break
+    return prev, kind
 
 
 def history_job(ctx, W, j, overrides):
-    import random as _r
+    """returns ([earlier configurations, oldest first], judged configuration, label).  The judged run is the
+    LAST of 2-3 runs in one folder.
+      <kind>       one earlier run with ONE defining leaf changed (wholerun.prev_variant)
+      chain        two earlier runs: prev_variant of prev_variant (two different leaves)
+      shrink-grow  three runs in which the number of simulations shrinks and grows again with a duration change
+                   in between: A = longer durations, N simulations; B = the judged parameters with ONE simulation;
+                   C = the judged run with N simulations (the top-up of the generator folder must produce the
+                   extra simulations from the CURRENT parameters, whatever files an earlier run left behind)"""
+    import copy as _c
 
     what = HISTORY_KINDS[j % len(HISTORY_KINDS)]
     ov = dict(overrides)
     st = [[2023, 7, 1], [2022, 5, 1], [2024, 3, 1]][j % 3]
     ov.update({"start": st, "end": [st[0], 12, 31] if j % 2 == 0 else [st[0], 11, 15], "n_sites": 5})
+    if what == "shrink-grow":
+        ov.update({"end": [st[0], st[1] + 3, 28], "n_sims": 3})
     cfg = W.make_config(ctx.rng, **ov)
     # programs that really tag and repair, long-lived leaks, leaks from before the period
     cfg["methods"]["OGI"].update({"months": list(range(1, 13)), "surveys_per_year": 6, "spatial": 1.0, "mdl": 0.125,
@@ -556,13 +577,48 @@ def history_job(ctx, W, j, overrides):
     cfg["pre_sim_emissions"] = True
     cfg["rep"] = {"epr": 0.03125, "duration": 365, "multi": True}
     base = ctx.rng.randrange(1 << 30)
-    prev, kind = None, None
-    for t in range(400):
-        prev, kind = W.prev_variant(cfg, _r.Random(base + t))
-        if kind == what:
-            break
-    ctx.count("history:%s" % kind)
-    return prev, cfg, kind
+    if what == "shrink-grow":
+        cfg["rep"]["duration"] = [20, 30, 45][(j // len(HISTORY_KINDS)) % 3]
+        cfg["nonrep"]["duration"] = [20, 10][(j // len(HISTORY_KINDS)) % 2]
+        if cfg["nonrep"]["epr"] == 0.0:
+            cfg["nonrep"]["epr"] = 0.00390625
+        a, _ = _prev_of_kind(W, cfg, "duration", base)          # longer maximum durations, 3 simulations
+        if (j // len(HISTORY_KINDS)) % 2 == 1:
+            a, _ = _prev_of_kind(W, a, "period-start", base + 1000)   # ... and an earlier start as well
+        b = _c.deepcopy(cfg)
+        b.pop("wide_applied", None)
+        b["n_sims"] = 1                                         # the judged parameters, fewer simulations
+        prevs, label = [a, b], "shrink-grow"
+    elif what == "chain":
+        p1, k1 = _prev_of_kind(W, cfg, None, base)
+        p2, k2 = None, k1
+        for t in range(50):
+            p2, k2 = _prev_of_kind(W, p1, None, base + 5000 + t)
+            if k2 != k1:
+                break
+        prevs, label = [p2, p1], "chain:%s,%s" % (k2, k1)
+    else:
+        p1, k1 = _prev_of_kind(W, cfg, what, base)
+        prevs, label = [p1], k1
+    ctx.count("history:%s" % (label if not label.startswith("chain") else "chain"))
+    ctx.count("history_runs_before_the_judged_one", len(prevs))
+    return prevs, cfg, label
+
+
+def run_history(W, prevs, cfg):
+    """the earlier configurations, oldest first, then `cfg`, all in ONE folder (generator folder and outputs left
+    as each run left them); returns the Result of the last run"""
+    import tempfile
+
+    root = tempfile.mkdtemp(prefix="ldarverif_")
+    rcs = []
+    for pc in prevs[:-1]:
+        r0 = W.run_config(pc, workdir=root, keep_inputs=True, debug=True, processes=1, trace=False)
+        rcs.append(r0.rc)
+    r = W.run_after(prevs[-1], cfg, workdir=root, debug=True, processes=1, trace=True)
+    rcs.append(r.prev_rc)
+    r.prev_rcs = rcs
+    return r
 
 
 def run_configs(ctx, n, extra_sources_every=0, crash_is_broken=False, shapes=False, n_wide=0, n_history=0, **overrides):
@@ -574,9 +630,9 @@ def run_configs(ctx, n, extra_sources_every=0, crash_is_broken=False, shapes=Fal
 
     cfgs, modes = [], []
     for j in range(n_history):
-        prev, cfg, kind = history_job(ctx, W, j, overrides)
+        prevs, cfg, kind = history_job(ctx, W, j, overrides)
         cfgs.append(cfg)
-        modes.append({"debug": True, "processes": 1, "prev": prev, "what_differs": kind})
+        modes.append({"debug": True, "processes": 1, "prev": prevs, "what_differs": kind})
     for j in range(n_wide):
         ov = dict(overrides)
         ov.update(WIDE_SHAPES[j % len(WIDE_SHAPES)](j // len(WIDE_SHAPES)))
@@ -624,16 +680,16 @@ def run_configs(ctx, n, extra_sources_every=0, crash_is_broken=False, shapes=Fal
         def go(cm):
             cfg, mode = cm
             if mode.get("prev") is not None:
-                r = W.run_after(mode["prev"], cfg, debug=True, processes=1, trace=True)
+                r = run_history(W, mode["prev"], cfg)
                 r.history = mode["what_differs"]
                 return r
             return W.run_config(cfg, debug=mode["debug"], processes=mode["processes"], trace=True)
 
         results = list(ex.map(go, zip(cfgs, modes)))
     for r in results:
-        if getattr(r, "history", None) and getattr(r, "prev_rc", 0) != 0:
-            ctx.count("history_first_run_stopped")
-            ctx.note("history (%s): the earlier run in the folder stopped with rc %s" % (r.history, r.prev_rc))
+        if getattr(r, "history", None) and any(getattr(r, "prev_rcs", [])):
+            ctx.count("history_earlier_run_stopped")
+            ctx.note("history (%s): an earlier run in the folder stopped (rcs %s)" % (r.history, r.prev_rcs))
     good = []
     for r in results:
         if r.rc != 0:
@@ -862,7 +918,7 @@ def base_fields(rec):
 
 
 def wholerun_stage(ctx, n_quick, n_thorough, per_record, per_result=None, wide_quick=5, wide_thorough=12,
-                   history_quick=1, history_thorough=5, **overrides):
+                   history_quick=2, history_thorough=7, **overrides):
     """runs generated configurations through the real simulator; trace conformance of every record
     against the Lean model; `per_record(ctx, res, rec)` evaluates the property's oracle"""
     results = run_configs(ctx, ctx.pick(n_quick, n_thorough), shapes=True, crash_is_broken=True,
